@@ -75,6 +75,7 @@ type Loc struct {
 // ---------------------------------------------------------------------------------------------
 
 type Emitter struct {
+	quant int // >0 while the body of a quantifier is being evaluated
 	lines    []string // definitions and assumptions, in order
 	lits     []string // string literal declarations (persistent, not rolled back)
 	litNames map[string]string
@@ -117,6 +118,9 @@ func (e *Emitter) Define(prefix string, s Sort, term string) string {
 	if isAtom(term) {
 		return term
 	}
+	if e.quant > 0 {
+		return term // inside a quantifier body: the term may mention the bound variable
+	}
 	n := e.freshName(prefix)
 	e.born[n] = e.n
 	e.defs[n] = term
@@ -142,6 +146,9 @@ func (e *Emitter) FreshRaw(prefix string, sortText string) string {
 func (e *Emitter) Assert(term string) {
 	if term == "true" {
 		return
+	}
+	if e.quant > 0 {
+		return // a type fact about a term under a binder cannot be stated at top level
 	}
 	e.lines = append(e.lines, "(assert "+term+")")
 }
